@@ -14,6 +14,6 @@ func TestC10Generic(t *testing.T) {
 	runGenericProp(t, &genericProp{ID: "C10", Test: "TestC10Generic", IllWeight: 6,
 		Owns:   func(msg string) bool { return strings.Contains(msg, illMarker) && !strings.Contains(msg, "HARNESS") },
 		NonTri: func(g *gWorld) bool { return g.illegal >= 3 },
-		Rule:   "generic part: histories of generic calls (all arities) in lock-step with their ID-based equivalents, with 15 classes of illegal calls injected (MapN.Get/Add/Remove/Assign on a removed entity, Add of present / Remove of absent components, New/Add with a removed target, NewBatch/NewBatchQ with a count <= 0, Map.Set on a missing component, Map.GetRelation on a non-relation component or a removed entity, Map.SetRelation to a removed target or on a missing component, Map.Get of a removed entity): the generic call must panic like its equivalent, leave the world unlocked, and both worlds must still be equal; non-trivial (generic part) = at least 3 refused illegal calls in the history",
+		Rule:   "generic part: histories of generic calls (all arities) in lock-step with their ID-based equivalents, with 16 classes of illegal calls injected (MapN.Get/Add/Remove/Assign on a removed entity, Add of present / Remove of absent components, New/Add with a removed target, NewBatch/NewBatchQ with a count <= 0, Map.Set on a missing component, Map.GetRelation on a non-relation component or a removed entity, Map.SetRelation to a removed target or on a missing component, Map.Get of a removed entity): the generic call must panic like its equivalent, leave the world unlocked, and both worlds must still be equal; non-trivial (generic part) = at least 3 refused illegal calls in the history",
 	})
 }
